@@ -1,5 +1,43 @@
-"""property id -> clauses (rule functions) + the honest remainder"""
-from . import r2
+"""property id -> clauses (rule functions) + the honest remainder.  Single source for MANIFEST.json."""
+from . import r2, r3
+
+
+def fam(*names):
+    s = set(names)
+
+    def f(ctx, res):
+        r2.run(ctx, res, families=s)
+
+    f.__name__ = "r2_forwarders_" + "_".join(names)
+    return f
+
+
+def signed(*names):
+    s = set(names)
+
+    def f(ctx, res):
+        r2.check_signed_leaves(ctx, res, families=s)
+
+    f.__name__ = "r2_signed_" + "_".join(names)
+    return f
+
+
+def guards(*roles):
+    def f(ctx, res):
+        r3.check_guard_table(ctx, res, config="all", roles=roles or None)
+        r3.check_guard_table(ctx, res, config="all-rel", roles=roles or None)
+
+    f.__name__ = "r3_guards_" + "_".join(r.replace(" ", "-") for r in roles)
+    return f
+
+
+def both(fn):
+    def f(ctx, res):
+        fn(ctx, res, config="all")
+        fn(ctx, res, config="all-rel")
+
+    f.__name__ = fn.__name__ + "_dev_and_release"
+    return f
 
 
 def _c10_forwarders(ctx, res):
@@ -14,7 +52,49 @@ def _c10_folds(ctx, res):
     r2.check_folds(ctx, res)
 
 
+T_R2 = "MIR dataflow over operator impls (forwarder classification, operand provenance, cast losslessness, forwarding-graph acyclicity, reviewed leaf table)"
+T_R3 = "CFG dominance / guard-or-forward analysis over MIR in dev and release configurations (mandatory guards, checked-API guard dominance, divisor non-zero provenance)"
+
 PROPS = {
+    "C01": {
+        "clauses": [fam("Add", "Sub"), signed("Add", "Sub"), both(r3.check_underflow_asserts), r3.check_checked_sub, r3.check_add2_carry_used],
+        "not_decided": "the scalar tail's adc/sbb arithmetic, carry propagation into the longer operand, result growth; sign/magnitude dispatch tables (planned R5)",
+        "level_text": "Decides structural necessary conditions for every input: all + and - operator forms forward with operands in order (never swapped for -), "
+        "the underflow assertions of sub2/sub2rev are mandatory in release builds and test both the final borrow and the subtrahend's high digits, "
+        "checked_sub returns None exactly on Less and subtracts only on Greater, and no call site drops the carry returned by __add2.",
+        "technique": T_R2 + "; " + T_R3,
+    },
+    "C03": {
+        "clauses": [fam("Div", "Rem"), signed("Div", "Rem"), both(r3.check_div_guards), r3.check_checked_div, r3.check_division_sites],
+        "not_decided": "Knuth algorithm D (trial digit, add-back), normalisation shifts, single-digit loops; the sign fix-up tables of the rounding conventions (planned R5)",
+        "level_text": "Decides for every input: each of the ~390 division-family functions either tests its divisor for zero with a release-mode panic before any "
+        "division work or forwards the divisor to another division function; the 9 checked division functions return None on the zero edge and reach a "
+        "division only behind the non-zero edge; all Div/Rem operator forms forward with operands in order; every internal division call site divides by a "
+        "provably non-zero value.",
+        "technique": T_R3 + "; " + T_R2,
+    },
+    "C05": {
+        "clauses": [guards("modulus", "exponent"), r3.check_parity_dispatch, r3.check_residue_complement, r3.check_division_sites],
+        "not_decided": "Montgomery arithmetic, inv_mod_alt, window walk, plain_modpow, extended Euclid; complete sign-placement table (planned R5)",
+        "level_text": "Decides: zero-modulus and negative-exponent guards exist in release builds and dominate the computation; the Montgomery path is entered only "
+        "behind is_odd(modulus); every modulus-minus-residue complement in modpow/modinv/mod_floor is guarded by residue != 0 (the clause that exposed "
+        "the modinv defect for |modulus| = 1); reductions divide by the guarded modulus.",
+        "technique": T_R3,
+    },
+    "C06": {
+        "clauses": [both(r3.check_radix)],
+        "not_decided": "bit-regrouping and chunked Horner/division arithmetic, the accept/reject language of the digit classifier, padding (core::fmt); BASES tables and formatter table (planned R7)",
+        "level_text": "Decides: all 14 radix-taking entry points (7 per type) enforce their documented range - 2..=36 for text, 2..=256 for digit vectors - by a non-debug "
+        "assertion of their own or of the callee they forward the radix to, constants read from the MIR comparison operands, in dev and release builds.",
+        "technique": T_R3 + " with interprocedural radix-range summaries",
+    },
+    "C07": {
+        "clauses": [guards("shift"), fam("Shl", "Shr", "BitAnd", "BitOr", "BitXor")],
+        "not_decided": "running two's-complement carries, intra-digit shifts, bit queries; bit-operator sign tables (planned R5)",
+        "level_text": "Decides: the negative-shift panic precedes everything else in biguint_shl/biguint_shr in release builds (comparison against T::zero() on the shift "
+        "amount); every shift/bit operator form is a verified forwarder or a reviewed implementation.",
+        "technique": T_R3 + "; " + T_R2,
+    },
     "C10": {
         "clauses": [_c10_forwarders, _c10_signed, _c10_folds],
         "not_decided": "digit splitting/padding inside the unsigned scalar leaves and the digit arithmetic of the leaf implementations",
@@ -23,6 +103,54 @@ PROPS = {
         "the forwarding graph is acyclic and ends in an implementation); the ~310 implementations are compared with a reviewed table; signed scalar "
         "leaves must work on the unsigned magnitude; Sum/Product are folds of add/mul from ZERO/one(). This is a for-all-inputs argument for the "
         "forwarding layer, which is what the property is about; tests sample a handful of the forms.",
-        "technique": "MIR dataflow over operator impls: forwarder classification, operand-provenance and cast-losslessness check, forwarding-graph acyclicity, leaf table",
+        "technique": T_R2,
+    },
+    "C11": {
+        "clauses": [guards("root")],
+        "not_decided": "Newton convergence, the u64 fast path, float guesses; std/no_std confinement of the guess (planned R6)",
+        "level_text": "Decides: n > 0 (zeroth root) and the imaginary-root assertions (negative with even degree, sqrt of a negative) are mandatory in release builds, "
+        "test the right operands and dominate every return.",
+        "technique": T_R3,
+    },
+    "C12": {
+        "clauses": [fam("Pow")],
+        "not_decided": "square-and-multiply arithmetic; powsign table and 0^0 decision order (planned R5)",
+        "level_text": "Decides: all Pow operator forms (by value / by reference, every exponent type) are verified forwarders or reviewed implementations.",
+        "technique": T_R2,
+    },
+    "C13": {
+        "clauses": [r3.check_division_sites],
+        "not_decided": "Stein's algorithm, extended_gcd (num-integer), arithmetic of the multiple-of helpers",
+        "level_text": "Decides: lcm / gcd_lcm / extended_gcd_lcm divide only by a gcd shown non-zero by a dominating test (own zero test, or the joint zero test of exactly the "
+        "gcd's two arguments); is_multiple_of takes the remainder only behind other != 0 and answers self == 0 otherwise.",
+        "technique": T_R3,
+    },
+    "C14": {
+        "clauses": [
+            both(r3.check_div_guards),
+            r3.check_checked_div,
+            r3.check_checked_sub,
+            guards(),
+            both(r3.check_radix),
+            both(r3.check_underflow_asserts),
+            r3.check_add2_carry_used,
+            r3.check_division_sites,
+            r3.check_residue_complement,
+            r3.check_parity_dispatch,
+            r3.check_inventory,
+        ],
+        "not_decided": "unreachability of internal/debug assertions, primitive arithmetic overflow in debug builds, index bounds, termination, faults other than division by zero",
+        "level_text": "Decides the guard discipline for every input in both profiles: every documented failure (zero divisor, underflow, negative shift, radix range, zero "
+        "modulus, negative exponent, zeroth/imaginary root, empty range, zero bound) has a release-mode guard testing the right operand before the work; "
+        "checked variants return None on the failure edge and reach the panicking operation only behind the excluding edge; no mandatory assertion is "
+        "debug-only; debug-only code is effect-free.",
+        "technique": T_R3 + "; dev-vs-release panic-site inventory",
+    },
+    "C18": {
+        "clauses": [guards("range", "bound")],
+        "not_decided": "gen_biguint(n) < 2^n, word order / value stability, distribution; rejection-loop structure (planned R10)",
+        "level_text": "Decides: zero bound, empty and inverted range assertions of gen_biguint_below, gen_*_range and the Uniform samplers are mandatory and compare "
+        "the right operands with the right strictness (< for half-open, <= for inclusive).",
+        "technique": T_R3,
     },
 }
